@@ -275,6 +275,8 @@ def task_pair_order_labels(pr, repo):
 def task_option_parse(pr, repo):
     from . import C14
     C14.task_parse(pr, repo)
+    # ... and matched against (chain, number, insertion code) as a whole: the same number selected in two chains selects both
+    C14.task_init_group(pr, repo)
 
 
 def task_topup_labels(pr, repo):
